@@ -520,6 +520,7 @@ static void tun_check(const Json& c, Out& o) {
     o.label(fs % 2 ? "fs:odd" : "fs:even");
     o.label(f < 0 ? "sign:negative" : f > 0 ? "sign:positive" : "sign:zero");
     if (c.geti("clamped")) o.label("excluded:odd-fs f in (floor(fs/2), fs/2] (constructor rejects; clamped to floor(fs/2))");
+    if ((fs & 1) && std::fabs(f) > fs / 2) o.label("odd-fs: |f| in (floor(fs/2), fs/2]");
     if (!integral && total > fs) o.nontrivial(key_of(5, fs, uint64_t(std::llround(f * 4096.0)), total));
     o.evals = total;
 }
@@ -544,7 +545,9 @@ static void tun_gen(Ctx& ctx) {
         default: f = pickd(0, 1) * fs / 2.0;   // documented range [0, fs/2]
         }
         int clamped = 0;
-        if (f > lim) { f = lim; clamped = 1; }   // odd fs: (floor(fs/2), fs/2] is rejected by the constructor
+        // odd fs: f in (floor(fs/2), fs/2] is admissible (|f| <= fs/2); one case in eight of the fractional classes is moved there
+        if ((fs & 1) && fcls != F_ZERO && fcls != F_INT && fcls != F_INT_EDGE && pick(0, 7) == 0) f = pick(0, 2) == 0 ? fs / 2.0 : lim + pickd(0.0, 0.5);
+        if (f > fs / 2.0) f = fs / 2.0;
         f *= sgn;
         // 2..6 fs samples, capped at 5e5 (always more than fs when fs < 2.5e5)
         int64_t len = int64_t(std::llround(pickd(2.0, 6.0) * fs)) + pick(-1, 1);
